@@ -399,6 +399,10 @@ class Ctx:
             'wall_s': round(time.time() - self.t0, 2),
             'violations': nviol,
         }
-        os.makedirs(os.path.join(VERIF, 'evidence'), exist_ok=True)
-        with open(os.path.join(VERIF, 'evidence', f'{self.pid}.json'), 'w') as f:
+        # evidence/ describes /repo; a run pointed at another tree (triage of a
+        # seeded change in a scratch worktree) keeps its record in the cache
+        edir = os.path.join(VERIF, 'evidence') if REPO == '/repo' else \
+            os.path.join(CACHE, 'evidence-other-tree')
+        os.makedirs(edir, exist_ok=True)
+        with open(os.path.join(edir, f'{self.pid}.json'), 'w') as f:
             json.dump(ev, f, indent=1, default=str)
